@@ -24,16 +24,16 @@ STAGES = {
     'C01': {
         'quick': [
             ('shapes-2x2x2', 'MimeBuild', cfg(MAXE='2', MAXA='2', ROTS='{0, 5}', BOUNDARIES='{"", "fixed"}')),
-            ('encodings', 'MimeBuild', cfg(MAXP='2', MAXE='1', MAXA='1', ENCS='{"qp"}', PENCS='{"", "qp", "b64", "8bit"}',
-                                          FENCS='{"", "b64", "8bit", "qp"}', ROTS='{1, 9}')),
+            ('encodings', 'MimeBuild', cfg(MAXP='2', MAXE='1', MAXA='1', ENCS='{"qp", "7bit"}', PENCS='{"", "qp", "b64", "8bit", "7bit"}',
+                                          FENCS='{"", "b64", "8bit", "qp", "7bit"}', ROTS='{1, 9}')),
             ('rerender-and-delete', 'MimeBuild', cfg(MAXP='3', MAXE='1', MAXA='1', ENCS='{"qp", "b64"}', DELS='{0, 1, 2}', ROTS='{3}',
                                                     CCS='<<"size6000", "crlf", "size900">>', SRCS='<<"seeker", "reader", "chunk57">>',
                                                     OPSEQS='{<<"WriteTo", "WriteTo">>, <<"FailSink", "WriteTo">>, <<"FailSinkMid", "WriteTo">>, <<"FailSinkLate", "WriteTo">>, <<"Reader", "WriteTo">>}')),
         ],
         'thorough': [
             ('shapes-3x2x2', 'MimeBuild', cfg(MAXP='3', MAXE='2', MAXA='2', ROTS='0..16', BOUNDARIES='{"", "fixed"}')),
-            ('encodings', 'MimeBuild', cfg(MAXP='2', MAXE='2', MAXA='2', PENCS='{"", "qp", "b64", "8bit"}',
-                                          FENCS='{"", "b64", "8bit", "qp"}', ROTS='{1, 4, 9, 13}')),
+            ('encodings', 'MimeBuild', cfg(MAXP='2', MAXE='2', MAXA='2', ENCS='{"qp", "b64", "8bit", "7bit"}', PENCS='{"", "qp", "b64", "8bit", "7bit"}',
+                                          FENCS='{"", "b64", "8bit", "qp", "7bit"}', ROTS='{1, 4, 9, 13}')),
         ],
     },
 }
@@ -53,7 +53,7 @@ LENS = '<<"size54", "size55", "size56", "size57", "size58", "size59", "size60", 
 STAGES.update({
     'C12': {
         'quick': [
-            ('sink-every-offset', 'MimeBuild', cfg(MAXP='2', MAXE='1', MAXA='1', ENCS='{"qp", "b64", "8bit"}', FAULTS=SINKFAULTS,
+            ('sink-every-offset', 'MimeBuild', cfg(MAXP='2', MAXE='1', MAXA='1', ENCS='{"qp", "b64", "8bit", "7bit"}', FAULTS=SINKFAULTS,
                                                     CCS='<<"crlf", "utf8", "dots", "size300">>')),
             ('producers', 'MimeBuild', cfg(MAXP='2', MAXE='1', MAXA='2', ENCS='{"qp", "b64", "8bit"}', FAULTS=PRODFAULTS,
                                            FENCS='{"", "8bit"}', CCS='<<"crlf", "utf8", "size300">>')),
@@ -109,7 +109,7 @@ STAGES.update({
     },
     'C10': {
         'quick': [
-            ('shapes', 'MimeBuild', cfg(MAXP='2', MAXE='1', MAXA='2', ENCS='{"qp", "b64", "8bit"}', PENCS='{"", "b64"}', ROUNDTRIP='{TRUE}',
+            ('shapes', 'MimeBuild', cfg(MAXP='2', MAXE='1', MAXA='2', ENCS='{"qp", "b64", "8bit", "7bit"}', PENCS='{"", "b64"}', ROUNDTRIP='{TRUE}',
                                         CCS='<<"crlf", "utf8", "lf", "dots", "eq", "size300", "len76", "bin", "empty">>', ROTS='{0, 3}')),
             ('headers-and-names', 'MimeBuild', cfg(MAXP='1', MAXE='1', MAXA='1', ENCS='{"qp"}', ROUNDTRIP='{TRUE}', CCS='<<"crlf", "utf8">>',
                                                    HDRS=hdrsets(["subject", "fromname", "toname", "cc"], ["plain", "utf8", "long", "quotes"]),
